@@ -68,3 +68,46 @@ Print Assumptions C04_type_table.
 Theorem C04_satisfiable : release_valid ex_release = true /\ exists m, release_git_object ex_release = MOk m.
 Proof. exact ex_release_ok. Qed.
 Print Assumptions C04_satisfiable.
+
+(* ---- cross-model consistency C04 x C16 (proofs/CrossModelDates.v).  The tagger
+   line is Rel.format_author = fullname followed by C16's
+   Time.author_date_part, whose date text C16_format_date_exact characterises.
+   For every release with a target, an author and a date whose microseconds
+   are in [0, 10^6) (what Timestamp accepts: C16_range_rejected), the "tagger"
+   header of the manifest - the one the independent tag parser returns - is
+   EXACTLY
+       fullname SP txt SP offset_bytes,    txt = Time.format_date (ts x),
+   where Time.parse_date reads (seconds, microseconds) back from txt; txt is the
+   decimal of the seconds when microseconds = 0, else that decimal, ".", and
+   the 6-digit zero-padded microseconds without their trailing zeros; txt
+   contains no space, so when the offset bytes contain none either the
+   independent reader [parse_author_line] (split at the last two spaces, then
+   parse_date) recovers fullname, (seconds, microseconds) and the offset bytes.
+   Without a date the line is the fullname alone; without author there is none. *)
+From Coq Require Import ZArith Bool.
+From SWH.lib Require Dec DecPad.
+From SWH.proofs Require Import CrossModelDates.
+
+Theorem C04_tagger_date_exact : forall (r : release) (t m : bytes),
+  r_target r = Some t -> release_git_object r = MOk m ->
+  (forall a x, r_author r = Some a -> r_date r = Some x ->
+     (0 <= microseconds (ts x) < 1000000)%Z ->
+     exists line,
+       In (bs "tagger", line) (rel_headers r t) /\
+       option_map t_tagger (parse_tag m) = Some (Some line) /\
+       let s := seconds (ts x) in
+       let us := microseconds (ts x) in
+       let txt := format_date (ts x) in
+       line = fullname a ++ [SP] ++ txt ++ [SP] ++ offset_bytes x /\
+       parse_date txt = Some (s, us) /\
+       (us = 0%Z -> txt = Dec.dec_Z s) /\
+       (us <> 0%Z -> exists frac,
+           txt = Dec.dec_Z s ++ [DOT] ++ frac /\ frac <> [] /\ forallb Dec.is_digit frac = true /\
+           last frac 0%N <> ZERO /\ exists k, frac ++ repeat ZERO k = Dec.dec_pad 6 (Z.to_N us)) /\
+       ~ In SP txt /\
+       (~ In SP (offset_bytes x) -> parse_author_line line = Some (fullname a, (s, us), offset_bytes x))) /\
+  (forall a, r_author r = Some a -> r_date r = None ->
+     option_map t_tagger (parse_tag m) = Some (Some (fullname a))) /\
+  (r_author r = None -> option_map t_tagger (parse_tag m) = Some None).
+Proof. exact rel_tagger_date_exact. Qed.
+Print Assumptions C04_tagger_date_exact.
